@@ -148,11 +148,12 @@ func (c *vrcCache) wire(cc *mockcacheclient.MockClient) {
 
 // one step of a history: set (json != "") or delete an intent
 type vrcStep struct {
-	name   string
-	prio   int32
-	json   string
-	cancel bool      // the transaction is cancelled instead of confirmed: everything is as before it
-	with   []vrcStep // further intents of the same transaction
+	name    string
+	prio    int32
+	json    string
+	cancel  bool      // the transaction is cancelled instead of confirmed: everything is as before it
+	with    []vrcStep // further intents of the same transaction
+	invalid bool      // the configuration that would result violates the schema: the step has to be rejected, nothing changes
 }
 
 type vrcLive struct {
@@ -177,6 +178,12 @@ func TestVerifReplayConverge(t *testing.T) {
 		dkV1     = `{"doublekey":[{"key1":"k1","key2":"k2","mandato":"m","cont":{"value1":"x"}}]}`
 		dkV2     = `{"doublekey":[{"key1":"k1","key2":"k2","mandato":"m","cont":{"value2":"y"}}]}`
 		dkNone   = `{"doublekey":[{"key1":"k1","key2":"k2","mandato":"m"}]}`
+		dkNoMand = `{"doublekey":[{"key1":"k1","key2":"k2","cont":{"value1":"x"}}]}`
+		refFull  = `{"interface":[{"name":"ethernet-1/1","subinterface":[{"index":1,"type":"routed"}]}],"network-instance":[{"name":"default","interface":[{"name":"ethernet-1/1.1","interface-ref":{"interface":"ethernet-1/1","subinterface":1}}]}]}`
+		refNoIf  = `{"interface":[{"name":"ethernet-1/1","subinterface":[{"index":1,"type":"routed"}]}],"network-instance":[{"name":"default","interface":[{"name":"ethernet-1/1.1","interface-ref":{"subinterface":1}}]}]}`
+		refNoSub = `{"interface":[{"name":"ethernet-1/1"}],"network-instance":[{"name":"default","interface":[{"name":"ethernet-1/1.1","interface-ref":{"interface":"ethernet-1/1","subinterface":1}}]}]}`
+		bgpFull  = `{"network-instance":[{"name":"default","protocol":{"bgp":{"admin-state":"disable","autonomous-system":65000,"router-id":"1.1.1.1"}}}]}`
+		bgpNoRid = `{"network-instance":[{"name":"default","protocol":{"bgp":{"admin-state":"disable","autonomous-system":65000}}}]}`
 	)
 	histories := map[string][]vrcStep{
 		"shadowed value becomes active when the ruling intent is deleted": {{name: "A", prio: 10, json: ifA}, {name: "B", prio: 5, json: ifB}, {name: "B", prio: 5, json: ""}},
@@ -208,7 +215,25 @@ func TestVerifReplayConverge(t *testing.T) {
 		"intent shrinks next to a leaf of another intent":                 {{name: "B", prio: 10, json: dkV2}, {name: "A", prio: 5, json: dkV1}, {name: "A", prio: 5, json: dkNone}},
 		"presence holder deleted, another intent holds a child":           {{name: "X", prio: 10, json: case2E}, {name: "Y", prio: 20, json: case2}, {name: "X", prio: 10, json: ""}},
 		"presence holder deleted, a stronger intent holds a child":        {{name: "Y", prio: 5, json: case2}, {name: "X", prio: 10, json: case2E}, {name: "X", prio: 10, json: ""}},
+		"mandatory leaf dropped by a new revision of the intent":          {{name: "A", prio: 10, json: bgpFull}, {name: "A", prio: 10, json: bgpNoRid, invalid: true}},
+		"mandatory leaf missing from the start":                           {{name: "A", prio: 10, json: bgpNoRid, invalid: true}},
+		"mandatory list leaf dropped by a new revision":                   {{name: "A", prio: 10, json: dkV1}, {name: "A", prio: 10, json: dkNoMand, invalid: true}},
+		"leafref key source dropped by a new revision":                    {{name: "A", prio: 10, json: refFull}, {name: "A", prio: 10, json: refNoIf, invalid: true}},
+		"leafref target dropped by a new revision":                        {{name: "A", prio: 10, json: refFull}, {name: "A", prio: 10, json: refNoSub, invalid: true}},
 		"deleted intent cancelled":                                        {{name: "A", prio: 10, json: ifTwo}, {name: "A", prio: 10, json: "", cancel: true}},
+	}
+	// list subinterface { max-elements 4095 }: 4100 entries
+	{
+		var sb strings.Builder
+		sb.WriteString(`{"interface":[{"name":"ethernet-1/1","subinterface":[`)
+		for i := 0; i < 4100; i++ {
+			if i > 0 {
+				sb.WriteString(",")
+			}
+			fmt.Fprintf(&sb, `{"index":%d}`, i)
+		}
+		sb.WriteString(`]}]}`)
+		histories["more list entries than max-elements allows"] = []vrcStep{{name: "A", prio: 10, json: sb.String(), invalid: true}}
 	}
 	names := make([]string, 0, len(histories))
 	for k := range histories {
@@ -269,6 +294,10 @@ func TestVerifReplayConverge(t *testing.T) {
 			in := fmt.Sprintf("history=%s,steps=%v", hname, done)
 			var tis []*types.TransactionIntent
 			unchanged := len(all) == 1
+			before := map[string]*vrcLive{}
+			for k, v := range live {
+				before[k] = v
+			}
 			for _, x := range all {
 				req := &sdcpb.TransactionIntent{Intent: x.name, Priority: x.prio}
 				if x.json == "" {
@@ -325,8 +354,27 @@ func TestVerifReplayConverge(t *testing.T) {
 			for _, ir := range rsp.GetIntents() {
 				if len(ir.GetErrors()) > 0 {
 					rejected = true
-					fmt.Printf("REPLAY-FAIL fn=%s clause=panic input=%s why=unexpected validation errors %v\n", fnLL, in, ir.GetErrors())
+					if !st.invalid {
+						fmt.Printf("REPLAY-FAIL fn=%s clause=panic input=%s why=unexpected validation errors %v\n", fnLL, in, ir.GetErrors())
+					}
 				}
+			}
+			if st.invalid {
+				// C04: the verdict is the validity of the configuration that would result, whatever the history
+				if !rejected {
+					clause := "verdict_is_validity_of_the_result"
+					short := in
+					if hname == "more list entries than max-elements allows" {
+						clause += ".known" // recorded finding: max-elements / min-elements of lists are not checked
+						short = "history=" + hname + ",steps=[A@10: interface ethernet-1/1 with 4100 subinterface entries (max-elements 4095)]"
+					}
+					for _, fn := range []string{fnLL, "(*tree.sharedEntryAttributes).validateMandatoryWithKeys"} {
+						fmt.Printf("REPLAY-FAIL fn=%s clause=%s input=%s why=the resulting configuration violates the schema, yet the transaction was accepted\n", fn, clause, short)
+					}
+					break
+				}
+				live = before
+				continue
 			}
 			if rejected {
 				break
